@@ -391,6 +391,15 @@ def roundtrip_tensor(what, t, tmp, rec, expect=None):
     if default != 0:
         t2.setDefault(default)
     lib_eq(t2, t, f"{what}: Tensor.fromYAMLfile(dump(t)) vs t")
+    # the older loading form, the constructor itself (Tensor(yamlfile)), reads the same file
+    if depth > 0:
+        with _quiet():
+            t3 = Tensor(path) if len(leaves) % 2 else Tensor(yamlfile=path)
+        got3 = (_copy_ids(t3.getRankIds()), t3.getShape(), t3.getName(), content_map(t3.getRoot(), depth, default))
+        if got3 != (rank_ids, shape, name, ref):
+            raise Violation("tensor-yaml", f"{what}: Tensor(yamlfile) gives rank ids {got3[0]}, shape {got3[1]}, name "
+                            f"{got3[2]!r}, content {_pts(got3[3])}; dumped {rank_ids}, {shape}, {name!r}, {_pts(ref)}")
+        rec.cls("loaded-through-constructor")
 
 
 def _copy_ids(x):
